@@ -521,6 +521,7 @@ def cmd_check(prop, tier, seed, only_engines=None, evidence=True):
     per_job = []
     own, foreign, known_hits, inconclusive = [], [], {}, []
     processes = restarts = crashes = 0
+    job_samples = []
     for job in plan["jobs"]:
         tj = time.time()
         rs = run_job(job, prop, seed, tag)
@@ -555,6 +556,8 @@ def cmd_check(prop, tier, seed, only_engines=None, evidence=True):
                 else:
                     own.append(v)
         merge_num(total, js)
+        for smp in (js.get("samples") or [])[-2:]:
+            job_samples.append("[%s] %s" % (job["label"], smp[:1500]))
         per_job.append({
             "label": job["label"], "engine": job["engine"], "class": job.get("class"), "args": " ".join(job["args"]) or job.get("kind", ""),
             "scale_table": [getattr(r, "scale_row") for r in rs if hasattr(r, "scale_row")] or None,
@@ -595,7 +598,7 @@ def cmd_check(prop, tier, seed, only_engines=None, evidence=True):
             "evaluations": evaluations,
             "distinct_nontrivial": distinct,
             "rule": plan["rule"],
-            "samples": total.get("samples", [])[:6] or ["<none>"],
+            "samples": job_samples[:24] or ["<none>"],
             "exhaustive": bool(plan.get("exhaustive")) and all(j["exhausted_range"] for j in per_job),
             "nontrivial": int(total.get("nontrivial", 0)),
             "jobs": per_job,
